@@ -80,26 +80,29 @@ WITNESS(stream_step);
 	(g_had_ev && IS_JUMBO(g_cur_flags) && g_size - g_off0 < 28) || \
 	(g_navail >= 16 && g_navail < 28 && IS_JUMBO(g_next_flags)))
 
-int c_stream_step(struct stream *stream)
-/* shape: one stream, one buffer object of exactly `size` bytes, arbitrary content */
-__CPROVER_requires(__CPROVER_is_fresh(stream, sizeof(*stream)) && DIAG_PRE)
-__CPROVER_requires(stream->size >= 1 && stream->size <= C19_MAX_STREAM)
-__CPROVER_requires(__CPROVER_is_fresh(stream->buf, (size_t) stream->size + C19_PAD))
-/* STREAM_WF: 0 <= offset <= size; a loaded event is the one at buf+offset and it fits */
-__CPROVER_requires(stream->offset >= 0 && stream->offset <= stream->size)
-__CPROVER_requires(stream->cur_ev == NULL || __CPROVER_pointer_equals(stream->cur_ev, (struct ovni_ev *) (stream->buf + stream->offset)))
-__CPROVER_requires(g_off0 == stream->offset && g_size == stream->size && g_clkoff == stream->clock_offset &&
-	g_had_ev == (stream->cur_ev != NULL) && g_active0 == (stream->active != 0) &&
-	g_unsorted == (stream->unsorted != 0) && g_last0 == stream->lastclock)
-__CPROVER_requires(!g_had_ev || (g_size - g_off0 >= 12 && g_cur_flags == RD8(stream, g_off0)))
-__CPROVER_requires(!g_had_ev || !IS_JUMBO(g_cur_flags) || (g_size - g_off0 >= 16 && g_cur_js == RD32(stream, g_off0 + 12)))
-__CPROVER_requires(g_cur_size == (g_had_ev ? SIZE_OF(g_cur_flags, g_cur_js) : 0))
-__CPROVER_requires(!g_had_ev || (g_cur_size <= g_size - g_off0 && g_cur_size <= INT32_MAX))
-/* the event after the step, read only where the bytes exist */
-__CPROVER_requires(g_noff == g_off0 + g_cur_size && g_navail == g_size - g_noff)
-__CPROVER_requires(g_navail < 12 || (g_next_flags == RD8(stream, g_noff) && g_next_raw == RD64(stream, g_noff + 4)))
-__CPROVER_requires(g_navail < 16 || !IS_JUMBO(g_next_flags) || g_next_js == RD32(stream, g_noff + 12))
+/* shape: one stream, one buffer object of exactly `size` (+C19_PAD) bytes, arbitrary content;
+ * STREAM_WF: 0 <= offset <= size; a loaded event is the one at buf+offset and it fits;
+ * the event after the step is read only where the bytes exist */
+#define STREAM_STEP_PRE(stream) \
+__CPROVER_requires(__CPROVER_is_fresh(stream, sizeof(*stream)) && DIAG_PRE) \
+__CPROVER_requires(stream->size >= 1 && stream->size <= C19_MAX_STREAM) \
+__CPROVER_requires(__CPROVER_is_fresh(stream->buf, (size_t) stream->size + C19_PAD)) \
+__CPROVER_requires(stream->offset >= 0 && stream->offset <= stream->size) \
+__CPROVER_requires(stream->cur_ev == NULL || __CPROVER_pointer_equals(stream->cur_ev, (struct ovni_ev *) (stream->buf + stream->offset))) \
+__CPROVER_requires(g_off0 == stream->offset && g_size == stream->size && g_clkoff == stream->clock_offset && \
+	g_had_ev == (stream->cur_ev != NULL) && g_active0 == (stream->active != 0) && \
+	g_unsorted == (stream->unsorted != 0) && g_last0 == stream->lastclock) \
+__CPROVER_requires(!g_had_ev || (g_size - g_off0 >= 12 && g_cur_flags == RD8(stream, g_off0))) \
+__CPROVER_requires(!g_had_ev || !IS_JUMBO(g_cur_flags) || (g_size - g_off0 >= 16 && g_cur_js == RD32(stream, g_off0 + 12))) \
+__CPROVER_requires(g_cur_size == (g_had_ev ? SIZE_OF(g_cur_flags, g_cur_js) : 0)) \
+__CPROVER_requires(!g_had_ev || (g_cur_size <= g_size - g_off0 && g_cur_size <= INT32_MAX)) \
+__CPROVER_requires(g_noff == g_off0 + g_cur_size && g_navail == g_size - g_noff) \
+__CPROVER_requires(g_navail < 12 || (g_next_flags == RD8(stream, g_noff) && g_next_raw == RD64(stream, g_noff + 4))) \
+__CPROVER_requires(g_navail < 16 || !IS_JUMBO(g_next_flags) || g_next_js == RD32(stream, g_noff + 12)) \
 __CPROVER_requires(g_next_size == FIT_SIZE(g_navail, g_next_flags, g_next_js))
+
+int c_stream_step(struct stream *stream)
+STREAM_STEP_PRE(stream)
 __CPROVER_requires(g_next_size < 0 || (CLOCK_ARITH_OK && g_next_clock == (long long) g_next_raw + g_clkoff))
 __CPROVER_requires(C19_PAD ? TAIL_WINDOW : !TAIL_WINDOW)
 __CPROVER_requires(WBIND(stream_step, w_size == g_size && w_offset == g_off0 && w_active == stream->active &&
@@ -154,6 +157,30 @@ void h_stream_step(void)
 	if (r == 1 && IS_JUMBO(g_cur_flags)) REACH("end of stream after a short jumbo");
 	if (r == -1 && g_active0 && g_next_size < 0 && IS_JUMBO(g_next_flags)) REACH("refused: short jumbo at the end truncated");
 #endif
+}
+
+/* ---- twin of finding [F-C19-1]: the same step WITHOUT the clock carve-out ----
+ * Everything about the cursor still holds for all clock values; the three clock
+ * operations are expected to fail (known_findings.txt).  Concrete input: ovnisort on a
+ * stream whose two events have clocks 0x7fffffffffffffff and 0x8000000000000000:
+ * `clock - stream->lastclock` = INT64_MIN - INT64_MAX.  */
+int c_stream_step_anyclock(struct stream *stream)
+STREAM_STEP_PRE(stream)
+__CPROVER_requires(!TAIL_WINDOW && !g_had_ev)
+__CPROVER_assigns(stream->offset, stream->cur_ev, stream->active, stream->lastclock, stream->deltaclock, DIAG_FRAME)
+__CPROVER_ensures(__CPROVER_return_value == 0 || __CPROVER_return_value == 1 || __CPROVER_return_value == -1)
+__CPROVER_ensures(stream->offset >= 0 && stream->offset <= stream->size)
+__CPROVER_ensures(__CPROVER_return_value != 0 || (stream->cur_ev == (struct ovni_ev *) (stream->buf + stream->offset) &&
+	stream->offset == g_noff && g_next_size >= 12 && stream->offset + g_next_size <= stream->size))
+__CPROVER_ensures(__CPROVER_return_value != 0 || !g_had_ev || stream->offset >= g_off0 + 12)
+;
+
+void h_stream_step_anyclock(void)
+{
+	struct stream *stream;
+	int r = stream_step(stream);
+	if (r == 0 && g_next_raw > (unsigned long) INT64_MAX) REACH("accepted with a clock above INT64_MAX");
+	if (r == -1 && g_next_size >= 12) REACH("refused by the clock test");
 }
 
 /* ---- check_stream_header: reads 8 bytes only after size >= 8 ---- */
